@@ -61,10 +61,11 @@ try:
             else:
                 entry = '/'.join(rel(cwd, ed) + [en])
                 if style == 'dot': entry = './' + entry
-            def run(cwd_, entry_):
+            def run(cwd_, entry_, then=None):
                 os.chdir(os.path.join(base, *cwd_))
                 try:
                     v = parse_file(entry_)
+                    if then is not None: os.chdir(os.path.join(base, *then))     # imports are followed lazily: the directory in force at look-up time must not matter either
                     for _ in range(k): v = v['next']
                     r = v['id']
                     return 'Reached %d' % int(str(getattr(r, 'value', r)).strip('"')[2:])
@@ -95,6 +96,9 @@ try:
             # a second working directory / spelling of the same entry file must give the same result
             cwd2 = R.choice(dirs); entry2 = '/'.join(rel(cwd2, ed) + [en]); got2 = run(cwd2, entry2)
             if got2 != got: viol.append(dict(case, what='result depends on cwd/spelling: %s from %s vs %s from %s' % (got, case['cwd'], got2, '/'.join(cwd2))))
+            # thirteenth round: the working directory changes between parsing the entry file and following its imports
+            cwd3 = R.choice(dirs); got3 = run(cwd, entry, then=cwd3); kk = 'chdir-before-lookup/' + style; keys[kk] = keys.get(kk, 0) + 1
+            if got3 != got: viol.append(dict(case, what='result depends on the working directory at look-up time: %s, but %s after chdir to %s between parse_file and the look-up' % (got, got3, '/'.join(cwd3))))
             if len(samples) < 3: samples.append(case)
             rows.append('(%s, %d, [%s], %s, %s)' % (fs, k, '; '.join(q(x) for x in bt + cwd), q(entry), got if not got.startswith('Other') else 'OSError'))
     # ---- directed (eighth round): `..` across a symlinked directory and through a directory that does not exist — the operating system decides,
